@@ -1992,18 +1992,18 @@ MANIFEST = {
     "design_ref": "DESIGN.md 4/C05",
 }
 FINDINGS = [
-    {"status": "fixed", "key": "forged-constant:nat_eval", "commit": "c59b729",
+    {"status": "fixed", "key": "forged-constant:nat_eval", "commit": "9425459",
      "what": "check_proof evaluated trusted macros on goals that are not terms of the theory: nat_eval and const_inequality accepted "
              "|- minus (1::real) 2 = (0::nat) with minus :: real => real => nat (evaluators go by constant names; Theory.check_term was never called)"},
-    {"status": "fixed", "key": "wrong-type:nat_eval:real", "commit": "c7e308e",
+    {"status": "fixed", "key": "wrong-type:nat_eval:real", "commit": "e7db98f",
      "what": "nat_eval accepted |- (1::real) - 2 = 0 (evaluators dispatch on constant names only; the macro had no type guard)"},
-    {"status": "fixed", "key": "wrong-type:int_eval:nat", "commit": "c7e308e",
+    {"status": "fixed", "key": "wrong-type:int_eval:nat", "commit": "e7db98f",
      "what": "int_eval and real_eval accepted |- (1::nat) - 2 + 1 = 0; real_const_eq |- ((1::nat) - 2 + 1 = 0) <--> true; real_compare and "
              "const_inequality |- (1::nat) - 2 < 0 (nat subtraction evaluated as integer subtraction)"},
-    {"status": "fixed", "key": "evaluator-no-meaning:nat_eval:[\"uminus\",\"nat\",[\"lit\",\"nat\",\"1\",\"1\"]]", "commit": "c7e308e",
+    {"status": "fixed", "key": "evaluator-no-meaning:nat_eval:[\"uminus\",\"nat\",[\"lit\",\"nat\",\"1\",\"1\"]]", "commit": "e7db98f",
      "what": "nat_eval(-(1::nat)) = -1, so nat_eval accepted |- -(1::nat) + 2 = 1 and real_norm |- of_nat (-(1::nat)) = -1 (is_number also "
              "accepts -n and m/n; uminus has no definition on nat)"},
-    {"status": "fixed", "key": "false:const_inequality:[\"gt\",\"real\",[\"fn\",\"sin\",[\"pi\"]],[\"lit\",\"real\",\"0\",\"1\"]]", "commit": "2aa902f",
+    {"status": "fixed", "key": "false:const_inequality:[\"gt\",\"real\",[\"fn\",\"sin\",[\"pi\"]],[\"lit\",\"real\",\"0\",\"1\"]]", "commit": "0e957fd",
      "what": "const_inequality decided with Python floats and no margin: accepted |- sin pi > 0, |- ~(sqrt 2 * sqrt 2 = 2), "
              "|- pi + 10^30 + 1 <= pi + 10^30, |- pi + 10^30 - 10^30 < 1, |- 2 ^ (1/2) = 6369051672525773 / 4503599627370496, "
              "|- ~((-8) ^ (1/3) = -2)"},
